@@ -1,6 +1,6 @@
 (* Equivalence of the definitions translated from /repo's current source (group mtu) with the hand-written models. *)
 From Coq Require Import Lia.
-From PV Require Import Model.Prelude Model.Bits Model.Sig Model.Matcher Model.Select Model.Uptime Model.Mtu Model.Text Model.SigParse Model.DbParse Model.HttpRead Model.HttpMatch Gen.GenLib Gen.Generated_mtu.
+From PV Require Import Model.Prelude Model.Bits Model.Sig Model.Matcher Model.Select Model.Uptime Model.Mtu Model.Text Model.SigParse Model.DbParse Model.HttpRead Model.HttpMatch Gen.GenLib Gen.Generated_mtu Proofs.MtuP.
 
 Theorem gen_should_fingerprint_eq frag ty : gen_should_fingerprint frag ty = should_fp frag ty.
 Proof. reflexivity. Qed.
@@ -24,9 +24,28 @@ Proof.
   unfold gen_mtu_signatures_match. destruct (m_mtu r =? mtu); [reflexivity | exact IH].
 Qed.
 
+
+(* pyp0f/impersonate/mtu.py: the new MSS value and the rewritten option list, as the source says it now *)
+Theorem gen_impersonate_mtu_eq m ver opts : gen_impersonate_mtu m ver opts = imp_mtu m ver opts.
+Proof. unfold gen_impersonate_mtu, imp_mtu, hdr_of. destruct (existsb is_mss opts); reflexivity. Qed.
+
+(* the C08 theorems about impersonation, restated over the TRANSLATED code *)
+Theorem C08_translated_roundtrip : forall m ver opts acc,
+  last_mss (gen_impersonate_mtu m ver opts) acc = m - hdr_of ver /\
+  (0 < m - hdr_of ver -> last_mss (gen_impersonate_mtu m ver opts) acc + hdr_of ver = m).
+Proof. intros m ver opts acc. rewrite gen_impersonate_mtu_eq. exact (imp_mtu_roundtrip m ver opts acc). Qed.
+Theorem C08_translated_untouched : forall m ver opts,
+  filter (fun o => negb (is_mss o)) (gen_impersonate_mtu m ver opts) = filter (fun o => negb (is_mss o)) opts /\
+  (existsb is_mss opts = true -> Forall2 (Kept (m - hdr_of ver)) opts (gen_impersonate_mtu m ver opts)) /\
+  (existsb is_mss opts = false -> gen_impersonate_mtu m ver opts = OMss (m - hdr_of ver) :: opts).
+Proof. intros m ver opts. rewrite gen_impersonate_mtu_eq. exact (imp_mtu_untouched m ver opts). Qed.
+
 Print Assumptions gen_should_fingerprint_eq.
 Print Assumptions gen_valid_for_mtu_fingerprint_eq.
 Print Assumptions gen_mtu_from_mss_eq.
 Print Assumptions gen_mtu_from_mss_reject.
 Print Assumptions gen_mtu_signatures_match_eq.
 Print Assumptions gen_find_mtu_match_eq.
+Print Assumptions gen_impersonate_mtu_eq.
+Print Assumptions C08_translated_roundtrip.
+Print Assumptions C08_translated_untouched.
